@@ -104,6 +104,7 @@ Clauses(ev) ==
             \cup (IF Range(ev.smf_files) # (DOMAIN ev.saved \ {"mimetype"}) THEN {"C04:manifest-differs-from-package"} ELSE {})
             \cup (IF ~NoDup(ev.smf) THEN {"C04:duplicate-manifest-entry"} ELSE {})
          ELSE {})
+   \cup (IF ev.op = "clone" /\ Has(ev, "mf_view") /\ Range(ev.mf_view) # Range(mf) THEN {"C10:clone-manifest-differs"} ELSE {})
    \cup (IF ev.op = "reopen" /\ Has(ev, "mf_view") /\ ev.mf_view # disk[ev.target].mf THEN {"C04:reopened-manifest"} ELSE {})
 
 Init ==
